@@ -77,6 +77,9 @@ func logging(rep *kit.Report, root string) {
 		{"except-on-first-of-two", func(d string) (string, []*logFile) {
 			return fmt.Sprintf("\tlog / %s/e1.log %s {\n\t\texcept /a/skip\n\t}\n\tlog / %s/e2.log %s\n", d, format, d, format), []*logFile{{path: d + "/e1.log", scope: "/", except: []string{"/a/skip"}}, {path: d + "/e2.log", scope: "/"}}
 		}},
+		{"same-scope-around-another", func(d string) (string, []*logFile) {
+			return fmt.Sprintf("\tlog / %s/s1.log %s\n\tlog /zz %s/sz.log %s\n\tlog / %s/s2.log %s\n", d, format, d, format, d, format), []*logFile{{path: d + "/s1.log", scope: "/"}, {path: d + "/sz.log", scope: "/zz"}, {path: d + "/s2.log", scope: "/"}}
+		}},
 		{"nested-scopes", func(d string) (string, []*logFile) {
 			return fmt.Sprintf("\tlog / %s/n1.log %s\n\tlog /a %s/n2.log %s\n", d, format, d, format), []*logFile{{path: d + "/n1.log", scope: "/"}, {path: d + "/n2.log", scope: "/a"}}
 		}},
@@ -97,7 +100,9 @@ func logging(rep *kit.Report, root string) {
 	big := "5000xt"
 	scripts := []string{"ret:0", "ret:200", "ret:404", "ret:400", "ret:500:boom", "ret:503", "status:200;write:x;ret:0", "status:201;write:" + big + ";ret:0", "status:404;write:nf;ret:0", "status:200;write:x;write:y;flush;ret:0:boom", "status:204;ret:0", "panic", "status:200;write:x;panic", "",
 		// the handler flushes before it has written anything (which commits 200), then reports an error or writes
-		"flush;ret:500:boom", "flush;ret:404", "flush;write:x;ret:0"}
+		"flush;ret:500:boom", "flush;ret:404", "flush;write:x;ret:0",
+		// part of a body was written, then the handler gives up with an error status (what a gateway does when its backend dies)
+		"status:200;write:x;ret:502:boom"}
 	paths := []string{"/a/x", "/a/skip/y", "/b/z", "/c", "/rw", "/teapot", "/int/q", "/priv/p", "/old", "/A/X", "/a/../b/w", "/plain.txt", "/missing"}
 	type job struct {
 		lc  logCfg
@@ -409,7 +414,7 @@ func rotation(rep *kit.Report, root string) {
 
 func main() {
 	rep := kit.NewReport("C20", "exploration",
-		"logging: 6 log layouts (one, two same-scope, disjoint scopes, except, except on the first of two, nested scopes) x every subset of size <=2 of 11 wrapping directives x 17 inner behaviours x 13 paths x GET/POST x Accept-Encoding, new lines of every log file counted after every request and {status}/{size} compared with what the strict writer saw; rotation: two sites sharing one rolling file under 4 spellings of its name, every line counted over the file and its backups, lines after a rotation looked for in the current file; placeholders: every format of 3 atoms over 20 atoms (vocabulary, header/cookie/query/env lookups, unknown, escaped braces, text) x 9x9 request-supplied values containing placeholder syntax, against a single-pass reference; distinct_nontrivial = outcome classes")
+		"logging: 7 log layouts (one, two same-scope, two same-scope around another scope, disjoint scopes, except, except on the first of two, nested scopes) x every subset of size <=2 of 11 wrapping directives x 18 inner behaviours x 13 paths x GET/POST x Accept-Encoding, new lines of every log file counted after every request and {status}/{size} compared with what the strict writer saw; rotation: two sites sharing one rolling file under 4 spellings of its name, every line counted over the file and its backups, lines after a rotation looked for in the current file; placeholders: every format of 3 atoms over 20 atoms (vocabulary, header/cookie/query/env lookups, unknown, escaped braces, text) x 9x9 request-supplied values containing placeholder syntax, against a single-pass reference; distinct_nontrivial = outcome classes")
 	kit.Init()
 	kit.RegisterProbe()
 	kit.Log.Off.Store(true)
